@@ -67,6 +67,7 @@ class _f8_threadcore
 #if (FIX8_THREAD_SYSTEM == FIX8_THREAD_PTHREAD)
 	pthread_attr_t _attr;
 	pthread_t _tid;
+	bool _joinable = false; // a thread may be joined once, and only if it was started
 #elif (FIX8_THREAD_SYSTEM == FIX8_THREAD_STDTHREAD)
 	std::unique_ptr<std::thread> _thread;
 #endif
@@ -84,7 +85,9 @@ protected:
 	int _start(void *sub)
 	{
 #if (FIX8_THREAD_SYSTEM == FIX8_THREAD_PTHREAD)
-		return pthread_create(&_tid, &_attr, _run<T>, sub);
+		const int result(pthread_create(&_tid, &_attr, _run<T>, sub));
+		_joinable = !result;
+		return result;
 #elif (FIX8_THREAD_SYSTEM == FIX8_THREAD_STDTHREAD)
 		_thread.reset(new std::thread(_run<T>, sub));
 #endif
@@ -126,7 +129,10 @@ public:
 	virtual int join(int timeoutInMs = 0)
 	{
 #if (FIX8_THREAD_SYSTEM == FIX8_THREAD_PTHREAD)
-		return getid() != get_threadid() ? pthread_join(_tid, nullptr) ? -1 : 0 : -1; // prevent self-join
+		if (!_joinable || getid() == get_threadid()) // prevent self-join and joining twice
+			return -1;
+		_joinable = false;
+		return pthread_join(_tid, nullptr) ? -1 : 0;
 #elif (FIX8_THREAD_SYSTEM == FIX8_THREAD_STDTHREAD)
       if (_thread.get() && _thread->joinable() && getid() != get_threadid())
 			_thread->join();
